@@ -53,6 +53,7 @@ structure FTy where
 inductive TRule
   | required
   | min (n : Int) | max (n : Int) | length (n : Nat)
+  | gt (n : Int) | gte (n : Int) | lt (n : Int) | lte (n : Int)   -- not in the docs/tags.md tables; implemented, meaning by name
   | email | url | uuid | regex          -- regex is always `regex=^aa*$` in the matrix
   | positive | negative | nonnegative | nonpositive
   | nonempty
@@ -79,6 +80,7 @@ def documented (r : TRule) (c : Cls) : Bool :=
   | .max _, .str | .max _, .num | .max _, .slice => true
   | .length _, .str | .length _, .slice => true
   | .email, .str | .url, .str | .uuid, .str | .regex, .str => true
+  | .gt _, .num | .gte _, .num | .lt _, .num | .lte _, .num => true
   | .positive, .num | .negative, .num | .nonnegative, .num | .nonpositive, .num => true
   | .nonempty, .slice => true
   | _, _ => false
@@ -91,6 +93,10 @@ def ruleHolds (r : TRule) (p : Probe) : Bool :=
   | .required, _ => true
   | .min n, .num t => decide (2 * n ≤ t)
   | .max n, .num t => decide (t ≤ 2 * n)
+  | .gt n, .num t => decide (2 * n < t)
+  | .gte n, .num t => decide (2 * n ≤ t)
+  | .lt n, .num t => decide (t < 2 * n)
+  | .lte n, .num t => decide (t ≤ 2 * n)
   | .min n, .str _ l => decide (n ≤ (l : Int))
   | .max n, .str _ l => decide ((l : Int) ≤ n)
   | .length n, .str _ l => decide (l = n)
@@ -160,6 +166,8 @@ def TRule.ofString? (s : String) : Option TRule :=
   | ["nonempty"] => some .nonempty
   | ["min", n] => n.toInt?.map .min
   | ["max", n] => n.toInt?.map .max
+  | ["gt", n] => n.toInt?.map .gt | ["gte", n] => n.toInt?.map .gte
+  | ["lt", n] => n.toInt?.map .lt | ["lte", n] => n.toInt?.map .lte
   | ["length", n] => n.toNat?.map .length
   | _ => none
 
@@ -171,6 +179,7 @@ def Probe.ofString? (s : String) : Option Probe :=
   match s.splitOn ":" with
   | ["nil"] => some .nil
   | ["n", t] => t.toInt?.map .num
+  | ["i", v] => v.toInt?.map (fun v => .num (2 * v))
   | ["s", k, l] => do let k ← StrKind.ofString? k; let l ← l.toNat?; pure (.str k l)
   | ["e", n] => n.toNat?.map .elems
   | ["b", "1"] => some (.flag true) | ["b", "0"] => some (.flag false)
